@@ -202,6 +202,9 @@ func genCSVCase(t *rapid.T) csvCase {
 		if c.conf.IgnoreEmptyLines && !big && rapid.IntRange(0, 3).Draw(t, "blank") == 0 {
 			d.BlankAfter[i] = true
 		}
+		if c.conf.IgnoreEmptyLines && big && (i%97 == 5 || i == 998 || i == 1001) {
+			d.BlankAfter[i] = true // blank lines before and around the row where RowCountHint resizes
+		}
 	}
 	d.FinalBreak = rapid.Bool().Draw(t, "finalbreak")
 
@@ -376,8 +379,13 @@ func checkCSVRead(qf qframe.QFrame, exp hx.CSVExpect, nrows int) string {
 	return hx.Diff(want, got)
 }
 
-func TestC12(t *testing.T) {
-	rapid.Check(t, func(t *rapid.T) {
+func TestC12(t *testing.T) { rapid.Check(t, propC12) }
+
+// FuzzC12 drives the same property with coverage-guided bytes (thorough tier only).
+func FuzzC12(f *testing.F) { f.Fuzz(rapid.MakeFuzz(propC12)) }
+
+func propC12(t *rapid.T) {
+	{
 		c := genCSVCase(t)
 		data := c.doc.Bytes()
 		exp := c.doc.Expect(c.conf)
@@ -431,5 +439,5 @@ func TestC12(t *testing.T) {
 			classes = append(classes, "no-final-break")
 		}
 		evC12.Case((special && fragmented) || long, desc, classes...)
-	})
+	}
 }
